@@ -68,10 +68,16 @@ def generate(rng, tier):
         if any(s[0] == name for s in rspec): continue
         rspec.append((name, kind, gen.gen_values(rng, kind, nr, rng.choice(gen.NA_PATTERNS), "few", 0.2, tags)))
     join = rng.choice(JOINS)
+    ren = [b for b in by if not isinstance(b, str)]
+    if ren and rng.random() < 0.3 and not any(s_[0] == ren[0][0] for s_ in rspec):
+        # the right frame has a column of its own that is called like the left key of a (left, right) renamed pair
+        kind = rng.choice(["int", "str", "float"])
+        rspec.append((ren[0][0], kind, gen.gen_values(rng, kind, nr, "none", "few", 0.0)))
     if join == "full_join":
         # a non-key name present on both sides: what full_join shows under it is unspecified -> not generated
         lnames = {s[0] for s in lspec}
-        rspec = [(("rx_" + n) if (n in lnames and not any(n == (b if isinstance(b, str) else None) for b in by)) else n, k, v) for n, k, v in rspec]
+        keynames = {b if isinstance(b, str) else b[0] for b in by}
+        rspec = [(("rx_" + n) if (n in lnames and n not in keynames) else n, k, v) for n, k, v in rspec]
     if rng.random() < 0.3:
         rest = rspec[1:]
         rng.shuffle(rest)
